@@ -455,7 +455,7 @@ func simplifyTokens(p *Plan) []*Plan {
 func init() {
 	register(&Profile{
 		ID: "C16", Name: "tokens", Level: "exploration",
-		Rule: "each run: real logins through the middleware (users with friendly-named, plain-named, repeated attributes, absent NameID; RSA/ECDSA SP key; custom cookie name and session lifetime) followed by 3-10 presentations to RequireAccount / RequireAttribute handlers of: the valid session token at clock positions around mint+lifetime and after a backward clock jump, the same SP's tracking token, another deployment's session token (other key, or same key and other URL), alg=none, HS256 keyed with the public key (PEM/DER), edited claims/header, truncated, bit-flipped, empty, garbage, identical claims signed by a foreign key, wrong cookie name; non-trivial = at least one presentation of a non-valid token or of the valid token outside the comfortable inside of its lifetime; distinct = distinct abstract log",
+		Rule: "each run: real logins through the middleware (users with friendly-named, plain-named, repeated attributes, absent NameID; RSA/ECDSA SP key; custom cookie name and session lifetime) followed by 3-10 presentations to RequireAccount / RequireAttribute handlers of: the valid session token at clock positions around mint+lifetime and after a backward clock jump, the same SP's tracking token, another deployment's session token (other key, or same key and other URL), alg=none, HS256 keyed with the public key (PEM/DER), edited claims/header, truncated, bit-flipped, empty, garbage, identical claims signed by a foreign key, wrong cookie name; non-trivial = at least one presentation of a non-valid token or of the valid token outside the comfortable inside of its lifetime; distinct = distinct abstract log; a /nested/ route puts the other deployment's RequireAccount in front of the target's; users include assertions with SessionNotOnOrAfter ten hours out, attributes repeated non-adjacently and across two statements; the sibling deployment sharing the key may differ in audience only or issuer only",
 		Gen:  genTokens, Exec: execTokens, Simplify: simplifyTokens,
 		RunsQuick: 3000, RunsThorough: 300000,
 		Assumptions: []string{"a token is 'minted by this SP' iff it is exactly the cookie value the deployment set at a login (harness bookkeeping)", "+-2 s around mint and mint+lifetime is a declared don't-care (JWT instants are whole seconds)", "the default session lifetime is one hour (documented default); custom lifetimes are set through the public MaxAge fields", "the SessionIndex entry the codec adds to the attribute map is ignored"},
